@@ -316,6 +316,9 @@ def run(tier):
         pproof.discharge(r, obls, file=FILE, fn_of=lambda ob: 'pit')
         r.functions.append(dict(file='metrics.py', fn='pit (random=True)', trusted=['numpy.random.uniform', 'pandas.notnull'], nonterminating=[], cutloops=0, unrolled=0, terminating=0))
         r.extra['paths_explored'] = npaths
+    except (engp.Unsupported, engp.PathLimit) as e:
+        # the code under analysis uses a construct the symbolic executor does not support (e.g. after a change of the code): undecided, not a crash
+        r.undecided.append('Engine P cannot execute the current code symbolically: %s' % (str(e)[:300],))
     except Exception:
         r.broken.append('C10 Engine P driver crashed: ' + traceback.format_exc()[-2500:])
     monitors(r)
